@@ -730,7 +730,45 @@ def load_residue():
     for e in d.get("sites", []):
         if e.get("key"):
             out.setdefault("key:" + e["key"], e)
+            # provenance envelope: per (function, class group) the union of the value sources that were reviewed
+            fn, cls, leaves = _split_key(e["key"])
+            env = out.setdefault("env:%s" % fn, {"leaves": set(), "roots": set(), "entry": e, "classes": set()})
+            env["classes"].add(_class_group(cls))
+            env["leaves"] |= leaves
+            env["roots"] |= set(e.get("roots", ["reader", "writer"]))
     return out
+
+
+def _split_key(key):
+    parts = key.split(" | ", 2)
+    fn, cls = parts[0], parts[1]
+    body = parts[2].strip()
+    body = body[1:-1] if body.startswith("{") and body.endswith("}") else body
+    return fn, cls, {x.strip() for x in body.split(", ") if x.strip()}
+
+
+def _class_group(cls):
+    return "overflow" if cls.startswith("Overflow(") else cls
+
+
+def _small_const(leaf):
+    if not leaf.startswith("c:"):
+        return False
+    try:
+        return abs(int(leaf[2:])) < (1 << 16)
+    except ValueError:
+        return False
+
+
+def envelope_match(residue, key, kind):
+    """the site only combines value sources that were reviewed for the same function and class of condition (plus
+    small constants and positions of the function's own iterations)"""
+    fn, cls, leaves = _split_key(key)
+    env = residue.get("env:%s" % fn)
+    if env is None or kind not in env["roots"] or _class_group(cls) not in env["classes"]:
+        return None
+    extra = {l for l in leaves - env["leaves"] if not _small_const(l) and l not in (".0", ".1", "call:next", "call:Iterator::enumerate", "call:Iterator::zip", "call:slice::len", "call:Vec::len", "call:Ord::min", "call:range::next")}
+    return env["entry"] if not extra else None
 
 
 def panic_freedom(ctx, prog, rule_inv, rule_dis, kind, cfg_label=""):
@@ -759,7 +797,7 @@ def panic_freedom(ctx, prog, rule_inv, rule_dis, kind, cfg_label=""):
             ctx.ob(rule_dis, "discharged/%s" % _key(s.sig), True, "%s cannot panic: %s" % (s.sig, why), where=s.fn.file_line(s.block), nontrivial=True)
             continue
         s.key = coarse_key(s)
-        ent = residue.get(s.sig) or residue.get("key:" + s.key)
+        ent = residue.get(s.sig) or residue.get("key:" + s.key) or envelope_match(residue, s.key, kind)
         if ent and kind in ent.get("roots", ["reader", "writer"]):
             stats["reviewed"] += 1
             used_residue.add(s.sig)
